@@ -9,7 +9,7 @@ LEVEL_TEXT = ("Coq theorems over every history (command lines, parsed or raw byt
 LEVEL_NOTE = ("The theorems are about the model; the model/code tie is sampled (differential testing). Modelled, not verified: the two "
               "stores (GetMessages order, RemoveMessage, Source availability), TLS (STLS answers -ERR: TLS is not configured in the "
               "harness), timeouts (deadlines are ignored by the scripted connection), true concurrency inside one command "
-              "(external store changes happen between commands).")
+              "(external store changes happen between commands); a read error in the middle of streaming a message. What RETR/TOP normalise is stated exactly by pop3_norm_pieces (every LF-separated piece comes back with exactly one CR before its LF: 'a LF' -> 'a CR LF', 'a CR LF' and 'a CR CR LF' unchanged, an unterminated last piece is terminated); pop3_norm_only_line_endings alone compares the non-CR/LF bytes and cannot see a moved CR.")
 TECHNIQUE = "machine-checked proof in Coq + model/code correspondence check"
 DESIGN_REF = "DESIGN.md §4 C13, Appendix C.2"
 RULE = ("sess: generated POP3 dialogues (0-8 messages, hostile message sources incl. 70 KB lines, valid/malformed/out-of-range/"
@@ -19,10 +19,12 @@ RULE = ("sess: generated POP3 dialogues (0-8 messages, hostile message sources i
         "evictions, alternating mem and file store; plus an enumeration of all pairs of transaction commands on a 2-message mailbox and a "
         "regression corpus; bytes: raw client byte streams (valid dialogues cut at every byte; garbage with LF/CR/NUL/8-bit/the ToUpper runes over-represented; lines of 5-75 KB) run by Coq's run_stream itself; net: scripted connections (a pause longer than the idle timeout at every byte offset of valid dialogues and at random offsets of dialogues and garbage; endings EOF / silence / read error) run by Coq's run_net. distinct = distinct input line; non-trivial = the session logs in and issues at least one further command line.")
 TRUSTED = ["command words are compared after Go's strings.ToUpper: modelled for ASCII plus U+0131/U+017F (the only runes whose upper case is ASCII)",
-           "the store abstraction of Model/Pop3.v is proved to be C07's StoreSpec read through abs (pop3_over_storespec, storespec_*; every cap and size limit), and StoreSpec is what C07 proves both store models refine (pop3_over_store_models); what stays modelled rather than proved is the one difference between the back-ends that StoreSpec does not speak about: Source() of a message object whose message has been removed fails on the file store and still succeeds on the mem store (sampled by the correspondence run)"]
+           "the store abstraction of Model/Pop3.v is proved to be C07's StoreSpec read through abs (pop3_over_storespec, storespec_*: for every cap and size limit of StoreSpec), and StoreSpec is what C07 proves the store models refine (pop3_over_store_models: the memory-store model for every cap and size limit, the file-store model only without a size limit, c_max = 0, and under C07's environment hypothesis file_fresh); what stays modelled rather than proved is the one difference between the back-ends that StoreSpec does not speak about: Source() of a message object whose message has been removed fails on the file store and still succeeds on the mem store (sampled by the correspondence run)"]
 ASSUMPTIONS = ["the harness's scripted net.Conn hands the server one line per Read and never blocks writes; deadlines are not exercised",
                "TLS disabled (config.POP3.TLSEnabled=false, ForceTLS=false)"]
-NOT_PROVED = ["behaviour under true concurrency inside one command (a store change while RETR is streaming): not modelled (searched by the -race stress stream)"]
+NOT_PROVED = ["behaviour under true concurrency inside one command (a store change while RETR is streaming): not modelled (searched by the -race stress stream)",
+              "read error while a message is being streamed (handler.go sendMessage/sendMessageTop: scanner.Err() != nil => '.' then '-ERR ...'): not modelled; only the failure of msg.Source() is (BFail). Unreachable with the two stores unless the file is truncated while it is read",
+              "line-ending normalisation is exact per hop (pop3_norm_pieces: at most the one CR directly before an LF is read as part of the line ending), but over the two hops SMTP DATA -> POP3 RETR a body line 'a CR CR LF' arrives as 'a CR LF' (Example two_hop_cr_loss): a lost CR that is not strictly a line ending"]
 
 
 def _events(ins):
